@@ -16,8 +16,7 @@ import (
 
 func checkActionAdvance(p *Program, r *Report, rule string) {
 	fn := p.Func("template", "(*escaper).escapeAction")
-	edit := p.Func("template", "(*escaper).editActionNode")
-	if fn == nil || edit == nil {
+	if fn == nil {
 		r.Undec(rule, "template.escaper.escapeAction", "", "anchor not found")
 		return
 	}
@@ -32,10 +31,48 @@ func checkActionAdvance(p *Program, r *Report, rule string) {
 		return
 	}
 	stErr := stateConst(p, "stateError")
+	// the call that records the sanitizers: a function of the module that is handed the action node together with
+	// the list chosen for the context (the []string result of a call in this function)
+	var nodeParam *ssa.Parameter
+	for _, prm := range fn.Params {
+		if pt, ok := prm.Type().(*types.Pointer); ok {
+			if nt, ok := pt.Elem().(*types.Named); ok && nt.Obj().Pkg() != nil && nt.Obj().Pkg().Path() == "text/template/parse" && nt.Obj().Name() == "ActionNode" {
+				nodeParam = prm
+			}
+		}
+	}
+	isChosenList := func(v ssa.Value) bool {
+		ex, ok := v.(*ssa.Extract)
+		if !ok {
+			return false
+		}
+		if _, isCall := ex.Tuple.(*ssa.Call); !isCall {
+			return false
+		}
+		sl, ok := ex.Type().Underlying().(*types.Slice)
+		return ok && isStringish(sl.Elem())
+	}
 	var editCalls []ssa.Instruction
 	for _, b := range fn.Blocks {
 		for _, in := range b.Instrs {
-			if c, ok := in.(ssa.CallInstruction); ok && staticCallee(c.Common()) == edit {
+			c, ok := in.(ssa.CallInstruction)
+			if !ok || nodeParam == nil {
+				continue
+			}
+			g := staticCallee(c.Common())
+			if g == nil || g.Pkg != fn.Pkg {
+				continue
+			}
+			hasNode, hasList := false, false
+			for _, a := range c.Common().Args {
+				if a == ssa.Value(nodeParam) {
+					hasNode = true
+				}
+				if isChosenList(a) {
+					hasList = true
+				}
+			}
+			if hasNode && hasList {
 				editCalls = append(editCalls, in)
 			}
 		}
